@@ -72,12 +72,14 @@ def main():
         if rc != 0:
             return rc, out[-3000:]
         if uses_shim:
-            rc2, out2 = sh('REPO=%s /tmp/bitstream-shim/selftest.sh' % wt, cwd=wt)
+            rc2, out2 = sh('SHIMTEST_OUT=%s/_shimtest REPO=%s /tmp/bitstream-shim/selftest.sh' % (wt, wt), cwd=wt)
             return (0 if 'SHIM-SELFTEST PASS' in out2 else 1), out2[-1500:]
         return 0, ''
 
     def demo():
-        rc, out = sh('sh %s/run.sh' % os.path.relpath(mdir, wt), cwd=wt, timeout=1200)
+        first = open(os.path.join(mdir, 'run.sh')).readline()
+        interp = 'bash' if 'bash' in first else 'sh'
+        rc, out = sh('SHIMTEST_OUT=%s/_shimtest %s %s/run.sh' % (wt, interp, os.path.relpath(mdir, wt)), cwd=wt, timeout=1200)
         return rc, out[-1500:]
 
     # 1. clean, at the current HEAD of /repo (fixes committed since the
@@ -108,7 +110,7 @@ def main():
             meta['steps']['suite_missing'] = missing
             meta['steps']['suite_extra'] = extra
         if uses_shim:
-            rc2, out2 = sh('REPO=%s /tmp/bitstream-shim/selftest.sh' % wt, cwd=wt)
+            rc2, out2 = sh('SHIMTEST_OUT=%s/_shimtest REPO=%s /tmp/bitstream-shim/selftest.sh' % (wt, wt), cwd=wt)
             meta['steps']['shim_selftest'] = 'PASS' if 'SHIM-SELFTEST PASS' in out2 else out2[-800:]
         rc, out = demo()
         meta['steps']['demo_mutant_rc'] = rc
